@@ -79,4 +79,11 @@ theorem shape_refreshToken_ok : Oidc.Shapes.Shape_refreshToken := by unfold Oidc
 theorem text_TraefikOidc_isAllowedDomain_ok : Oidc.Shapes.Text_TraefikOidc_isAllowedDomain := by unfold Oidc.Shapes.Text_TraefikOidc_isAllowedDomain; rfl
 theorem text_TraefikOidc_extractGroupsAndRoles_ok : Oidc.Shapes.Text_TraefikOidc_extractGroupsAndRoles := by unfold Oidc.Shapes.Text_TraefikOidc_extractGroupsAndRoles; rfl
 
+
+/-! ## Program text of the helpers these theorems also rest on (constructors, accessors, token endpoint, configuration) -/
+theorem text_createStringMap_ok : Oidc.Shapes.Text_createStringMap := by unfold Oidc.Shapes.Text_createStringMap; rfl
+theorem text_New_ok : Oidc.Shapes.Text_New := by unfold Oidc.Shapes.Text_New; rfl
+theorem text_SessionData_GetEmail_ok : Oidc.Shapes.Text_SessionData_GetEmail := by unfold Oidc.Shapes.Text_SessionData_GetEmail; rfl
+theorem text_SessionData_SetEmail_ok : Oidc.Shapes.Text_SessionData_SetEmail := by unfold Oidc.Shapes.Text_SessionData_SetEmail; rfl
+
 end Oidc.Props.C06
